@@ -5,6 +5,7 @@ import re
 
 from engine import kinds
 from engine.facts import Site, Slicer, norm, operand_local, control_deps, last_field
+from engine.slicing import FlowSlicer
 
 CRATES = {"shuttle_engine", "shuttle_schedulers"}
 EXPLANATION = (
@@ -63,7 +64,10 @@ def r1_persist_before_raise(ctx):
     slp = Slicer(sp, alias_defs=False)
     for bb in range(len(sp.blocks)):
         t = sp.term(bb)
-        if t.get("k") == "switch" and kinds.discr_subject_field(sp, slp, t["discr"]) == "shuttle_engine::config::Config.max_steps":
+        if t.get("k") != "switch":
+            continue
+        if kinds.discr_subject_field(sp, slp, t["discr"]) == "shuttle_engine::config::Config.max_steps" or \
+                "field:shuttle_engine::config::Config.max_steps" in FlowSlicer(sp, control=False).operand_labels(t["discr"], sp.term_site(bb)):
             ms_sw.add(bb)
     w = sp.path_exists(None, sp.is_return, lambda x: x in cs, edge_ok=lambda a, nb: a not in ms_sw)
     ctx.ob("C12.R1", "persists-every-failure-kind", bool(calls) and w is None,
